@@ -2,7 +2,7 @@
 from collections import Counter
 
 from ..backends import BACKENDS, Store
-from ..gen import canon, floor_ms, mk_event, rand_grid
+from ..gen import bucket_ids, canon, floor_ms, mk_event, rand_grid
 from ._st import obs, raw_uids, raw_view
 
 ID = "C02"
@@ -10,7 +10,7 @@ LEVEL = "exploration"
 ANCHOR_FILES = ["aw_datastore/storages/memory.py", "aw_datastore/storages/sqlite.py", "aw_datastore/storages/peewee.py"]
 REQUIRED_COUNTERS = ["ops.memory", "ops.sqlite", "ops.peewee", "state_comparisons", "replace_last_checked"]
 RULE = ("operation histories (5-40 ops quick, up to 200 thorough) over 1-3 buckets of one store, per backend: insert, "
-        "bulk insert, bulk upsert (live ids of that bucket mixed with id-less events), replace(id), replace_last "
+        "bulk insert, bulk upsert (live ids of that bucket mixed with id-less events; sometimes the same id twice in one call), replace(id), replace_last "
         "(non-empty bucket, preceded by the limit-1 read that identifies its target), delete(live id), delete(id "
         "that never existed), occasionally delete + re-create of the bucket; timestamps from a pool of 6 instants and end instants from a pool (ties, nesting, "
         "zero-length, decreasing order, delete-then-upsert, delete-max-id-then-insert, identical twins with different ids, "
@@ -74,8 +74,12 @@ def gen_case(rng, ctx):
         elif r < 0.36:
             ops.append(dict(op="bulk", b=b, evs=[ev() for _ in range(rng.choice([0, 1, 2, 3, 5]))]))
         elif r < 0.46:
-            ops.append(dict(op="upsert", b=b, items=[dict(ev=ev(), pick=(rng.randrange(100) if rng.random() < 0.6 else None))
-                                                      for _ in range(rng.choice([1, 2, 3, 4]))]))
+            items = [dict(ev=ev(), pick=(rng.randrange(100) if rng.random() < 0.6 else None)) for _ in range(rng.choice([1, 2, 3, 4]))]
+            if rng.random() < 0.25:
+                again = rng.choice(items)       # the same target once more in the same call, with other contents
+                if again["pick"] is not None:
+                    items.insert(rng.randrange(len(items) + 1), dict(ev=ev(), pick=again["pick"]))
+            ops.append(dict(op="upsert", b=b, items=items))
         elif r < 0.58:
             ops.append(dict(op="replace", b=b, pick=rng.randrange(100), ev=ev()))
         elif r < 0.8:
@@ -106,7 +110,7 @@ def gen_case(rng, ctx):
                 burst.append(dict(op="replace", b=b, pick=-2, ev=ev(), rel="older"))
         at = rng.randrange(0, len(ops) + 1)
         ops[at:at] = burst
-    return dict(backend=backend, nb=nb, ops=ops, quiet=rng.random() < 0.35)
+    return dict(backend=backend, nb=nb, ops=ops, quiet=rng.random() < 0.35, names=bucket_ids(rng, nb, 0.7))
 
 
 def _pick(pick, m):
@@ -215,7 +219,7 @@ def run_case(case, ctx):
         ds = st.ds
         quiet = bool(case.get("quiet")) and backend != "memory"
         qst = st if quiet else None
-        bids = [f"bucket-{i}" for i in range(case["nb"])]
+        bids = list(case.get("names") or [f"bucket-{i}" for i in range(case["nb"])])
         for bid in bids:
             ds.create_bucket(bid, type="t", client="c", hostname="h")
         model = {bid: {} for bid in bids}
@@ -247,8 +251,10 @@ def run_case(case, ctx):
                     e = mk_event(it["ev"])
                     if it["pick"] is not None and live:
                         i = live[it["pick"] % len(live)]
-                        if i in used:       # one rewrite per id per call keeps the expected outcome unambiguous
-                            continue
+                        if i in used:
+                            # the same live id named twice in one call: the reference list applies the entries in order
+                            flags.add("upsert-same-id-twice")
+                            ctx.count("upserts_naming_one_id_twice")
                         used.add(i)
                         e.id = i
                         m[i] = _want(it["ev"])
